@@ -1119,7 +1119,7 @@ class NotNullCriterion(NullCriterion):
 
 
 class ComplexCriterion(BasicCriterion):
-    def get_sql(self, subcriterion: bool = False, **kwargs: Any) -> str:
+    def get_sql(self, subcriterion: bool = False, with_alias: bool = False, **kwargs: Any) -> str:
         sql = "{left} {comparator} {right}".format(
             comparator=self.comparator.value,
             left=self.left.get_sql(subcriterion=self.needs_brackets(self.left), **kwargs),
@@ -1127,7 +1127,10 @@ class ComplexCriterion(BasicCriterion):
         )
 
         if subcriterion:
-            return "({criterion})".format(criterion=sql)
+            sql = "({criterion})".format(criterion=sql)
+
+        if with_alias:
+            return format_alias_sql(sql, self.alias, **kwargs)
 
         return sql
 
